@@ -120,12 +120,7 @@ def x3 : X86Params where
   sqK2 := 374
   r2 := 0x1D3F03F03F03F03F_03F03F03F03F03F0_3F03F03F03F03F03_F03F03F03F03F03F_03F03F03F03F03F0_3F03F03F03F03F13
   one := 0x3D00000000000000_0000000000000000_0000000000000000_0000000000000000_0000000000000000_0000000000000003
-  sqProg := some
-    [⟨1, 10, [(0, 1), (0, 3), (0, 5), (2, 5), (4, 5)]⟩,
-     ⟨2, 10, [(0, 2), (0, 4), (1, 5), (3, 5)]⟩,
-     ⟨3, 9, [(1, 2), (1, 4), (3, 4)]⟩,
-     ⟨4, 8, [(1, 3), (2, 4)]⟩,
-     ⟨5, 7, [(2, 3)]⟩]
+  sqProg := none
 
 def x5 : X86Params where
   n := 8
@@ -146,8 +141,19 @@ def x5 : X86Params where
   sqK2 := 498
   r2 := 0x0045ED097B425ED0_97B425ED097B425E_D097B425ED097B42_5ED097B425ED097B_425ED097B425ED09_7B425ED097B425ED_097B425ED097B425_ED097B425ED0F19A
   one := 0x0130000000000000_0000000000000000_0000000000000000_0000000000000000_0000000000000000_0000000000000000_0000000000000000_0000000000000097
-  sqProg := some
-    [⟨1, 14, [(0, 1), (0, 3), (0, 5), (0, 7), (2, 7), (4, 7), (6, 7)]⟩,
+  sqProg := none
+
+/-- HISTORY: the carry chains of `gf65376_square` / `gf27500_square` BEFORE the repair 82bdea1 (chains 3.. stopped below
+    the top limb and dropped a carry). Since the repair every chain runs to the top limb (10 resp. 14), no carry can be
+    lost (the off-diagonal sum is < 2^(64(2n-1))), and the integer square is exact as at level 1: `sqProg := none`. -/
+def x3SqProgPreFix : List SqChain :=
+  [⟨1, 10, [(0, 1), (0, 3), (0, 5), (2, 5), (4, 5)]⟩,
+     ⟨2, 10, [(0, 2), (0, 4), (1, 5), (3, 5)]⟩,
+     ⟨3, 9, [(1, 2), (1, 4), (3, 4)]⟩,
+     ⟨4, 8, [(1, 3), (2, 4)]⟩,
+     ⟨5, 7, [(2, 3)]⟩]
+def x5SqProgPreFix : List SqChain :=
+  [⟨1, 14, [(0, 1), (0, 3), (0, 5), (0, 7), (2, 7), (4, 7), (6, 7)]⟩,
      ⟨2, 14, [(0, 2), (0, 4), (0, 6), (1, 7), (3, 7), (5, 7)]⟩,
      ⟨3, 13, [(1, 2), (1, 4), (1, 6), (3, 6), (5, 6)]⟩,
      ⟨4, 12, [(1, 3), (1, 5), (2, 6), (4, 6)]⟩,
@@ -222,18 +228,16 @@ def partial_reduce (a : Nat) : Nat :=
 /-- `quo = hi64(h·bigMul) >> bigSh` -/
 def bigQuo (h : Nat) : Nat := h * P.bigMul / 2 ^ 64 % 2 ^ 64 / 2 ^ P.bigSh
 
-/-- `mul_small(a, x)`, `x` a uint32.  The integer product `a·x` is exact; the carry variable `cc` still
-    holds the carry out of the *top-limb* addition of the product when it is reused as carry-in of the
-    folding chain (as coded), so that stale carry is added once more. -/
+/-- `mul_small(a, x)`, `x` a uint32: exact integer product `a·x`, then the high part `h` above bit `e` is folded
+    (`quo = h / c`, `rem = h mod c`); since the repair 2ef264b the fold chain starts with a clear carry. -/
 def mul_small (a x : Nat) : Nat :=
   let x := x % 2 ^ 32
   let D := a * x
-  let cc := D / P.R - limb a (P.n - 1) * x / 2 ^ 64
   let h := D / 2 ^ P.e % 2 ^ 64
   let lo := D % 2 ^ P.e
   let quo := bigQuo P h
   let rem := sub64 h (P.c * quo)
-  (lo + quo + cc + (rem * 2 ^ P.s % 2 ^ 64) * P.topW) % P.R
+  (lo + quo + (rem * 2 ^ P.s % 2 ^ 64) * P.topW) % P.R
 
 /-- `set_small(x)`, `x` a uint32: `h = x << (64 − s)` -/
 def set_small (x : Nat) : Nat :=
